@@ -115,8 +115,21 @@ impl Case for TCase {
             ("height", format!("\"{:#x}\"", self.h)),
             ("data_len", self.dl.to_string()),
             ("result_len", self.rl.to_string()),
-            ("data", "\"data[i] = T::make(i) (position pattern, see harness c15.rs)\"".to_string()),
-            ("placement", format!("\"{}\"", if self.start_flush { "start-flush" } else { "end-flush" })),
+            (
+                "data",
+                "\"data[i] = T::make(i) (position pattern, see harness c15.rs)\"".to_string(),
+            ),
+            (
+                "placement",
+                format!(
+                    "\"{}\"",
+                    if self.start_flush {
+                        "start-flush"
+                    } else {
+                        "end-flush"
+                    }
+                ),
+            ),
         ])
     }
     fn hash(&self) -> u64 {
@@ -173,7 +186,13 @@ impl Case for TCase {
 }
 
 fn fail(kind: &'static str, class: &'static str, e: String, a: String, n: String) -> Verdict {
-    Some(Fail { kind, class, expected: e, actual: a, note: n })
+    Some(Fail {
+        kind,
+        class,
+        expected: e,
+        actual: a,
+        note: n,
+    })
 }
 
 fn run_case<X: TElem>(c: &TCase, ad: &mut Arena, ar: &mut Arena) -> Verdict {
@@ -228,7 +247,13 @@ fn run_case<X: TElem>(c: &TCase, ad: &mut Arena, ar: &mut Arena) -> Verdict {
             };
         }
         if let Err(m) = res {
-            return fail("unexpected_panic", "unexpected_panic", "returns normally".into(), format!("panic: {m}"), String::new());
+            return fail(
+                "unexpected_panic",
+                "unexpected_panic",
+                "returns normally".into(),
+                format!("panic: {m}"),
+                String::new(),
+            );
         }
         let result: &[X] = std::slice::from_raw_parts(pr, c.rl);
         for j in 0..h {
@@ -263,7 +288,10 @@ fn run_case<X: TElem>(c: &TCase, ad: &mut Arena, ar: &mut Arena) -> Verdict {
             return fail(
                 "impl_vs_oracle",
                 "roundtrip",
-                format!("transpose(height x width) of the result restores data[{i}] = {:?}", X::make(i)),
+                format!(
+                    "transpose(height x width) of the result restores data[{i}] = {:?}",
+                    X::make(i)
+                ),
                 format!("{:?}", back[i]),
                 "transposing twice must restore the input".into(),
             );
@@ -347,7 +375,15 @@ fn shape_job<X: TElem>(ctx: &mut Ctx, part: usize, parts: usize) {
                 if start_flush && k > 0 && k % 3 != 0 {
                     continue;
                 }
-                let c = TCase { ty: X::NAME, w, h, dl, rl, start_flush, run: run_case::<X> };
+                let c = TCase {
+                    ty: X::NAME,
+                    w,
+                    h,
+                    dl,
+                    rl,
+                    start_flush,
+                    run: run_case::<X>,
+                };
                 // (w+h, w+h) and (w*w, w*w) can coincide with the product: the case decides
                 let nontrivial = p > 1 || !c.agrees();
                 let (a1, a2) = (&mut ad, &mut ar);
@@ -387,7 +423,15 @@ fn overflow_job<X: TElem>(ctx: &mut Ctx) {
     ];
     let mut n = 0;
     for (w, h, len) in cases {
-        let c = TCase { ty: X::NAME, w, h, dl: len, rl: len, start_flush: false, run: run_case::<X> };
+        let c = TCase {
+            ty: X::NAME,
+            w,
+            h,
+            dl: len,
+            rl: len,
+            start_flush: false,
+            run: run_case::<X>,
+        };
         // a buggy release build may hang or crash here: short watchdog
         ctx.arm_watchdog(3);
         let (a1, a2) = (&mut ad, &mut ar);
